@@ -98,6 +98,95 @@ def assembly_unit(spec):
                 program=spec.describe(), max_paths=50)
 
 
+_CY = {}
+CY_EVALS = ["ode", "jacobian", "grad", "vMat", "eventRateVector", "pureOdeVector", "transitionVar"]
+
+
+def cython_capture(spec):
+    """build the model with PyGOM's DEFAULT back-end (Cython autowrap), trigger each evaluator once at a concrete
+    point and keep (generated C, argument names, output shape, value returned by the evaluator)"""
+    if spec.name in _CY:
+        return _CY[spec.name]
+    from .. import c2smt
+    out = {"ok": True, "evals": {}, "why": None}
+    nS, nP, nE = len(spec.states), len(spec.params), len(spec.events)
+    xv = [1.5 + 0.75 * i for i in range(nS)]
+    thv = [0.3 + 0.2 * k for k in range(nP)]
+    tv = 0.7
+    with c2smt.capture_autowrap() as calls:
+        m = spec.build(lam=False)
+        if nP:
+            m.parameters = list(thv)
+        for name in CY_EVALS:
+            if name in ("vMat", "eventRateVector", "transitionVar") and not nE:
+                continue
+            if name == "grad" and not nP:
+                continue
+            n0 = len(calls)
+            try:
+                val = np.asarray(getattr(m, name)(xv, tv), dtype=float)
+            except Exception as e:      # noqa
+                out["ok"], out["why"] = False, "%s raised %r" % (name, e)
+                break
+            new = calls[n0:]
+            if len(new) != 1 or not new[0].parse():
+                out["ok"] = False
+                out["why"] = "%s: Cython build not used (PyGOM fell back to another back-end) or unexpected number of compilations (%d)" % (name, len(new))
+                break
+            cap = new[0]
+            out["evals"][name] = {"argnames": cap.argnames, "shape": cap.shape, "rhs": cap.rhs, "value": val,
+                                  "c_file": open(cap.c_path).read()[-600:]}
+    out["point"] = (xv, tv, thv)
+    _CY[spec.name] = out
+    return out
+
+
+def cython_unit(spec):
+    """C01 'both compile back-ends': the C that the Cython back-end generates, translated to SMT"""
+    from .. import c2smt
+    nS, nP, nE = len(spec.states), len(spec.params), len(spec.events)
+
+    def h(c):
+        cap = cython_capture(spec)
+        if not cap["ok"]:
+            c.note("cython back-end unavailable: %s" % cap["why"])
+            c.prove(True, "Cython back-end not in use for this definition (%s): nothing to translate" % cap["why"])
+            return
+        env, x, t, th = point(c, spec)
+        refs = {"ode": [[expr.ev(e, env)] for e in spec.rhs()],
+                "pureOdeVector": [[expr.ev(e, env)] for e in spec.pure()],
+                "jacobian": [[expr.ev(expr.d(f, s_), env) for s_ in spec.states] for f in spec.rhs()],
+                "grad": [[expr.ev(expr.d(f, p_), env) for p_ in spec.params] for f in spec.rhs()]}
+        if nE:
+            refs["vMat"] = [[expr.ev(e, env) for e in row] for row in spec.V()]
+            refs["eventRateVector"] = [[expr.ev(e, env)] for e in spec.rates()]
+        xv, tv, thv = cap["point"]
+        cenv_names = dict(zip(spec.states, xv))
+        cenv_names["t"] = tv
+        cenv_names.update(dict(zip(spec.params, thv)))
+        for name, rec in cap["evals"].items():
+            missing = [a for a in rec["argnames"] if a not in env]
+            c.prove(not missing, "%s: every C argument is a declared state, parameter or t" % name)
+            if missing:
+                continue
+            terms = [c2smt.c_to_value(r, env) for r in rec["rhs"]]
+            R, C_ = rec["shape"]
+            if name in refs:
+                ref = refs[name]
+                flat = [v for row in ref for v in row]
+                ok_shape = (R * C_ == len(flat)) and (R == len(ref) or C_ == len(ref) or R * C_ == len(ref))
+                c.prove(ok_shape and (R, C_) == (len(ref), len(ref[0])) or (1 in (R, C_) and R * C_ == len(flat)), "%s: generated C has the documented shape" % name)
+                if len(terms) == len(flat):
+                    c.prove(all_close(terms, flat, c), "%s: generated C (Cython back-end) == oracle, row-major" % name)
+            # tie the shared object PyGOM calls to the C that was translated: same value at the concrete point
+            conc = [c2smt.c_to_value(r, cenv_names, concrete=True) for r in rec["rhs"]]
+            got = np.asarray(rec["value"], dtype=float).ravel()
+            tie = len(conc) == len(got) and all(abs(float(a) - float(b)) <= 1e-9 * (1 + abs(float(b))) for a, b in zip(conc, got))
+            c.prove(bool(tie), "%s: the compiled evaluator returns the value of the translated C at a concrete point" % name)
+    return Unit("cython[%s]" % spec.name, h, bounds={"states": nS, "params": nP, "events": nE, "back_end": "Cython autowrap (PyGOM default)",
+                                                    "evaluators": CY_EVALS}, program=spec.describe(), max_paths=5, fidelity=0)
+
+
 def sigma_structures(states, kinds=("T", "B", "D")):
     """every single transition over `states`: T (ordered pairs), B by destination, B by origin, D"""
     out = []
@@ -170,7 +259,7 @@ class C01(Check):
                    "(the real add_func/compileExprAndFormat/_getEvalParam path executed on z3-backed numbers) are compared with an "
                    "independent oracle (own expression trees, own derived-parameter substitution) by z3 validity queries over ALL "
                    "states, times and parameter values.")
-    assumptions = ["floats modelled as reals; denominators non-zero", "lambdify back-end (PyGOM's fall-back) for the numeric evaluators; Cython back-end covered by generated-C translation in the thorough tier where it builds"]
+    assumptions = ["floats modelled as reals; denominators non-zero", "numeric evaluators are executed symbolically through the lambdify back-end (PyGOM's fall-back); the default Cython back-end is covered by translating the C it generates to SMT (cython[...] units: one definition quick, seven thorough) and tying the shared object to that C at a concrete point; gcc and Cython themselves are trusted"]
     stubs = []
 
     def units(self, tier, seed):
@@ -183,6 +272,8 @@ class C01(Check):
         us = [assembly_unit(s) for s in fam]
         for u, s in zip(us, fam):
             u.optional = s.name.startswith("gen")
+        cy = ["sir_mag"] if tier == "quick" else ["sir_mag", "saturating", "exponential", "periodic", "derived_nested", "ode_mixed", "sir_bd_multi"]
+        us += [cython_unit(expr.by_name(nm)) for nm in cy]
         sig = sigma_specs(1) + (sigma_specs(2) if tier != "quick" else sigma_specs(2)[::7])
         if tier != "quick":
             sig += sigma_specs(3)[::3]
